@@ -139,6 +139,20 @@ func Gen(seed uint64, profile string) *Scenario {
 	if r.Chance(1, 6) && profile != "order" {
 		sc.CloseTask = true
 	}
+	xr := simkit.NewRNG(seed, "bw/extras")
+	for pi := range sc.Pkgs {
+		if sc.Pkgs[pi].Rules != nil && xr.Chance(1, 6) && !hasPath(sc.Pkgs[pi].Files, "rules.ign") {
+			sc.Pkgs[pi].RulesLink = true
+		}
+	}
+	for vi := range sc.Variants {
+		if xr.Chance(1, 5) {
+			sc.Variants[vi].Tracer = simkit.Pick(xr, []string{"none", "nodiag"})
+		}
+	}
+	if profile == "post" && xr.Chance(1, 2) {
+		sc.LinkRoots = true
+	}
 	if (profile == "rules" || profile == "clean" || profile == "trees") && r.Chance(1, 4) {
 		sc.OtherPack = true
 	}
@@ -355,6 +369,15 @@ func genWorld(r *simkit.RNG, sc *Scenario, k *gknobs) {
 		case 2: // near twin: one path differs
 			tw.Files = append(tw.Files, PFile{Path: "only-in-twin.txt", Kind: "file", Body: "T;", Mode: 0o644})
 		}
+		if simkit.NewRNG(sc.Seed, "bw/twin-mode").Chance(1, 3) {
+			// same paths and contents, one permission bit differs: still one directory
+			for i := range tw.Files {
+				if tw.Files[i].Kind == "file" {
+					tw.Files[i].Mode ^= 0o111
+					break
+				}
+			}
+		}
 	}
 }
 
@@ -476,6 +499,10 @@ func addHostile(r *simkit.RNG, p *Pkg, i, np int, rootRun bool) {
 		{Path: "h-sibling", Kind: "link", Target: "../SIBLING/main.tf"},
 		{Path: "h-sibling-pkg", Kind: "link", Target: "../@SIBLINGPKG@/main.tf"},
 		{Path: "h-sibling-pkg", Kind: "link", Target: "../@SIBLINGPKG@"},
+		{Path: "h-up", Kind: "link", Target: ".."},
+		{Path: "h-up-dot", Kind: "link", Target: "../."},
+		{Path: "hd/h-upup", Kind: "link", Target: "../.."},
+		{Path: "h-abs-root", Kind: "link", Target: "/"},
 	}
 	n := r.Range(1, 3)
 	if r.Chance(1, 3) {
@@ -497,6 +524,9 @@ func addHostile(r *simkit.RNG, p *Pkg, i, np int, rootRun bool) {
 				p.Files = append(p.Files, PFile{Path: "ign", Kind: "dir", Mode: 0o755})
 				p.Files = append(p.Files, PFile{Path: "ign/keep.txt", Kind: "file", Body: "IGN;", Mode: 0o644})
 			}
+		}
+		if strings.HasPrefix(c.Path, "hd/") && !hasPath(p.Files, "hd") {
+			p.Files = append(p.Files, PFile{Path: "hd", Kind: "dir", Mode: 0o755})
 		}
 		if c.Path == "h-to-fifo" && !hasPath(p.Files, "h-fifo") {
 			p.Files = append(p.Files, PFile{Path: "h-fifo", Kind: "fifo", Mode: 0o644})
